@@ -249,9 +249,15 @@ func vpH_c03_plugins() {
 func vpH_c03_matrix() {
 	step := vpMapOf("command", "c")
 	v1, v2 := vpStr(1, "x-z"), vpStr(1, "x-z")
-	kind := vpInt(0, 4)
+	kind := vpInt(0, 6)
 	var wantMatrix any
 	switch kind {
+	case 5: // anonymous dimension plus an unknown key, no adjustments: not a simple list any more
+		step.Set("matrix", vpMapOf("setup", []any{v1, 47}, "concurrency_hint", 3))
+		wantMatrix = map[string]any{"setup": []any{v1, "47"}, "concurrency_hint": 3}
+	case 6: // named dimension plus unknown keys of every shape
+		step.Set("matrix", vpMapOf("zz", []any{true, nil}, "setup", vpMapOf("os", []any{v1}), "aa", vpMapOf("k", v2)))
+		wantMatrix = map[string]any{"setup": map[string]any{"os": []any{v1}}, "zz": []any{true, nil}, "aa": map[string]any{"k": v2}}
 	case 0: // simple list, scalars become strings
 		step.Set("matrix", []any{v1, 47, true})
 		wantMatrix = []any{v1, "47", "true"}
